@@ -194,6 +194,32 @@ func main() {
 		}
 		fns = append(fns, fn)
 	}
+	// closures that escape (returned, stored, started as goroutines, handed to libraries) are never executed in
+	// context: they are verified as units of their own, with their captured variables unconstrained
+	for _, fn := range sh.repoFuncs {
+		if fn.Parent() == nil || len(fn.Blocks) == 0 {
+			continue
+		}
+		pos := ld.Prog.Fset.Position(fn.Pos())
+		if strings.HasSuffix(pos.Filename, ".pb.go") || strings.HasSuffix(pos.Filename, "_test.go") {
+			continue
+		}
+		key := funcKey(fn)
+		if *funcFilter != "" && !strings.Contains(key, *funcFilter) {
+			continue
+		}
+		if !closureEscapesAnywhere(sh, cs, fn) {
+			continue
+		}
+		var ps []string
+		if ct := cs.ByKey[key]; ct != nil {
+			ps = ct.Props
+		}
+		if !wantProp(ps) {
+			continue
+		}
+		fns = append(fns, fn)
+	}
 	sort.Slice(fns, func(i, j int) bool { return funcKey(fns[i]) < funcKey(fns[j]) })
 
 	results := make([]*unitResult, len(fns))
